@@ -223,8 +223,8 @@ pub fn c42(args: &Args) -> ! {
         ]
     } else {
         vec![
-            (0, 2, 6, vec![], true, 4, 700),
-            (0, 3, 6, vec![], true, 4, 700),
+            (0, 2, 6, vec![], true, 8, 700),
+            (0, 3, 6, vec![], true, 8, 700),
             (1, 3, 3, vec![0, 1, 2, 3, 4], false, 4, 700),
             (1, 2, 3, vec![0, 1, 2, 3, 4], false, 4, 700),
             (2, 3, 2, vec![0, 1, 2, 3], false, 4, 700),
@@ -235,9 +235,9 @@ pub fn c42(args: &Args) -> ! {
         for b in bounds(&bs, unb) {
             for sh in 0..shards {
                 let shape = match family {
-                    0 => format!("shm table of capacity {cap_chans}, sequential: every writer sequence of length <= {len} over {{add seal, add open, remove oldest, remove newest, remove missing, remove_if(even id), remove_all}}, both copies compared after every operation; shard {sh}/{shards}"),
-                    1 => format!("shm table of capacity {cap_chans} holding 2 channels: every writer sequence of length <= {len} over {{add, remove oldest, remove_if(even id), remove_all}} against one reader (consult twice | exists+consult | consult+exists); shard {sh}/{shards}"),
-                    _ => format!("shm table of capacity {cap_chans} holding 2 channels: every writer sequence of length <= {len} over {{add, remove oldest, remove_if(even id), remove_all}} against two readers (consult | exists); shard {sh}/{shards}"),
+                    0 => format!("shm table of capacity {cap_chans}, sequential: every writer sequence of length <= {len} over {{add seal, add open, remove oldest, remove newest, remove missing, remove_if(even id), remove_if(nothing), remove_if(everything), remove_all}}, both copies and the offsets compared after every operation; shard {sh}/{shards}"),
+                    1 => format!("shm table of capacity {cap_chans} holding 2 channels: every writer sequence of length <= {len} over {{add, remove oldest, remove_if(even id), remove_if(nothing), remove_all}} against one reader (consult twice | exists+consult | consult+exists); shard {sh}/{shards}"),
+                    _ => format!("shm table of capacity {cap_chans} holding 2 channels: every writer sequence of length <= {len} over {{add, remove oldest, remove_if(even id), remove_if(nothing), remove_all}} against two readers (consult | exists); shard {sh}/{shards}"),
                 };
                 jobs.push(Job::new("afc", "c42", &[family, cap_chans, len, sh, shards], b, cap, &shape));
             }
@@ -247,7 +247,21 @@ pub fn c42(args: &Args) -> ! {
     fold(&mut rep, &args.prop, results);
     guards(
         &mut rep,
-        &["add_ok", "add_out_of_space", "remove_done", "remove_if_done", "remove_all_done", "quiescent_points_checked", "tables_consulted", "exists_calls", "futex_wait_blocked"],
+        &[
+            "add_ok",
+            "add_out_of_space",
+            "remove_done",
+            "remove_if_done",
+            "remove_if_on_empty_table",
+            "remove_if_matching_none_on_non_empty_table",
+            "remove_if_matching_some",
+            "remove_if_matching_all",
+            "remove_all_done",
+            "quiescent_points_checked",
+            "tables_consulted",
+            "exists_calls",
+            "futex_wait_blocked",
+        ],
     );
     rep.assume("a reader 'consults a table' by locking the list at read_off, exactly as seal/open/exists do; the harness reads the locked list through a child module of `shm`");
     rep.assume("POSIX shm object emulated in-process; futex(2) model keyed by the word's identity (as for C41/C43)");
